@@ -186,3 +186,5 @@ def run(prog, rep):
         rep.rule('R5.7', 'the skip primitive and the readers keep every header-declared length in an integer object wide enough for its length '
                          'field: the extent skipped is the declared one for payloads of every size', floor=20)
         msgpack_tables.narrow_findings(prog, rep, 'R5.7')
+        rep.rule('R5.8', 'ReadExtSize (both reader copies): the length field of k = 1, 2, 4 bytes is read once, unsigned, and returned', floor=6)
+        msgpack_tables.check_ext_size(prog, rep, 'R5.8')
